@@ -68,6 +68,13 @@ func init() {
 	})
 }
 
+var c07RiskyHosts = []string{
+	"\tif %s {\n\t}", "\tfor %s {\n\t}", "\tswitch %s {\n\t}", "\tif v := %s; v != nil {\n\t}", "\tfor i := %s; i < n; i++ {\n\t}",
+	"\tswitch v := %s; v {\n\t}", "\tfor range %s {\n\t}", "\t_ = x.(%s)", "\t_ = []%s{}", "\t_ = map[%s]int{}", "\tvar _ chan %s",
+	"\t_ = func(a %s) {}", "\t_ = %s{}", "\t_ = &%s{}", "\tgo %s", "\tdefer %s", "\t%s", "\t_ = *%s", "\t_ = -%s.f", "\t%s++", "\t%s = 1",
+	"var riskyV%d %s", "type riskyT%d %s",
+}
+
 func runC07(ctx *core.Ctx, idx int) *core.Result {
 	res := &core.Result{}
 	r := ctx.Rand("c07", idx)
@@ -99,6 +106,28 @@ func runC07(ctx *core.Ctx, idx int) *core.Result {
 			plants, _ := g.InstancePlants(c, 1+r.Intn(3), r.Intn(2))
 			// plant into risky hosts too: the judge only needs parseability
 			files = append(files, fi{fmt.Sprintf("r%d.go", f), g.File(gen.FileOpts{Plants: plants}), false})
+		}
+		if c.Kind == "expr" {
+			// risky hosts: positions in which not every expression prints as valid Go (control clause headers,
+			// type positions, conversions): the rewrite must either parse or be reported
+			var sb strings.Builder
+			sb.WriteString("package p\n\n")
+			n := 0
+			for _, h := range c07RiskyHosts {
+				inst, _ := c.Instance(g)
+				cand := fmt.Sprintf("func risky%d() {\n%s\n}\n\n", n, fmt.Sprintf(h, inst))
+				if strings.HasPrefix(h, "var ") || strings.HasPrefix(h, "type ") {
+					cand = fmt.Sprintf(h, n, inst) + "\n\n"
+				}
+				if gen.Parses("package p\n\n" + cand) {
+					sb.WriteString(cand)
+					n++
+				}
+			}
+			if n > 0 {
+				files = append(files, fi{"risky.go", sb.String(), false})
+				res.Ob("risky-host-sites", n)
+			}
 		}
 	}
 	mode := []string{"inplace", "print", "diff", "api"}[r.Intn(4)]
@@ -174,6 +203,9 @@ func runC07(ctx *core.Ctx, idx int) *core.Result {
 	if cc := cr.CrashClass(); cc != "" {
 		fail(cc, string(cr.Stderr))
 		return res
+	}
+	if strings.HasPrefix(class, "random:") && cr.Exit != 0 && strings.Contains(string(cr.Stderr), "reformat") {
+		res.Ob("random-pattern-runs-with-a-rejected-rewrite", 1)
 	}
 	verbose := strings.Contains(flagWord, "-v")
 	stdout := string(cr.Stdout)
